@@ -158,6 +158,14 @@ STREAM_KANI_QUICK = [
        P + "stream.rs::unilocal::StreamUniLocalH3::upgrade", P + "stream.rs::uniremote::StreamUniRemoteH3::upgrade", P + "stream.rs::biremote::StreamBiRemoteH3::upgrade"]),
 ]
 
+STREAM_KANI_BUFFERED = [
+    K("p_rule_table_buffered_%s" % r,
+      "%s read_frame_from_buffer on the rule-table inputs cut at an arbitrary point: a proper prefix is need-more-data and never moves the offset; the complete input gives the one-shot verdict with offset == consumption on Some and 0 on Err" % r,
+      [P + "stream.rs::%s::read_frame_from_buffer" % m], kind="bounded", bound="well-formed single frames (+ optional leading unknown frame), every cut point")
+    for r, m in (("biremote", "biremote::StreamBiRemoteH3"), ("bilocal", "bilocal::StreamBiLocalH3"),
+                 ("unicontrol", "uniremote::StreamUniRemoteH3"), ("session", "session::StreamSession"))
+]
+
 def _skip(name, role, buffered):
     return K(name, "%s%s on EVERY byte string <= 14 bytes with at most one leading unknown frame, arbitrary first_frame_done: result == reference (unknown frame skipped whole, rule table, error codes, exact consumption%s)" % (
         role, " (buffered)" if buffered else "", "; offset unchanged unless Some" if buffered else ""),
@@ -188,6 +196,7 @@ QPACK_MISC = [
     K("p_qpack_field_line_type", "all 256 first bytes classified per RFC 9204 4.5; unreachable!() unreachable", [P + "qpack.rs::Decoder::decode_field_line_type"]),
     K("p_qpack_static_table_is_rfc9204", "STATIC_TABLE == RFC 9204 Appendix A, all 99 rows; lookup_field total (None iff index >= 99)", [P + "qpack.rs::StaticTable::{STATIC_TABLE,lookup_field}"]),
 ]
+VEC_PUT_BYTES = K("p_vec_put_bytes", "Vec<u8>::put_bytes appends exactly the bytes, never fails", [P + "bytes.rs::<Vec<u8> as BytesWriter>::put_bytes"])
 QPACK_LOOKUP = K("p_qpack_lookup_index_sound", "lookup_index returns a row with the requested name (and value for KeyValue), None iff name absent",
                  [P + "qpack.rs::StaticTable::lookup_index"], tier="thorough", kind="bounded", bound="14 listed (name, value) pairs incl. all WebTransport pseudo-headers")
 
@@ -236,6 +245,12 @@ DRIVER_KANI = [
     K("p_write_error_mapping", "quinn::WriteError -> StreamWriteError: Stopped(c) -> Stopped(c) for all 62-bit c; other constructible variants -> documented arm",
       [D + "driver/streams/mod.rs::<StreamWriteError as From<quinn::WriteError>>::from"], crate="driver"),
 ]
+DRIVER_CLOSE = [
+    K("p_application_close_code_exact", "quinn ApplicationClosed(code, reason) -> ConnectionError::ApplicationClosed with the same 62-bit code (all 2^62) and reason",
+      [D + "error.rs::<ConnectionError as From<quinn::ConnectionError>>::from", D + "error.rs::ApplicationClose::{code,reason}"], crate="driver"),
+    K("p_connection_error_arms", "TimedOut / LocallyClosed / CidsExhausted / Reset / VersionMismatch keep their own arm, never an application close",
+      [D + "error.rs::<ConnectionError as From<quinn::ConnectionError>>::from"], crate="driver"),
+]
 DRIVER_STREAMID = K("p_streamid_q2w", "quinn stream id -> StreamId keeps the value; classification and session-id admission per RFC 9000 2.1, all initiators/directions/indices",
                     [D + "driver/utils.rs::streamid_q2w"], crate="driver")
 DRIVER_DGRAM_HDR = K("p_driver_datagram_header_size", "driver Datagram::header_size(session) == varint length of session/4", [D + "datagram.rs::Datagram::header_size"], crate="driver")
@@ -249,8 +264,8 @@ PROPS = {
         "level": "proof",
         "claim": "Preamble codec only: the WebTransport stream preamble (0x54 / 0x41 varint + session id varint) is written exactly and stripped exactly - encoders emit precisely those bytes for every session id, decoders (one-shot, buffered, and the async leaf futures under every chunking / Pending pattern by one-step induction) consume precisely those bytes and never a following application byte.",
         "note": "Not decided: that quinn delivers stream bytes in order, the driver's tasks, concurrency between streams, flow control, the async composites (StreamHeader::read_async / Frame::read_async are sequential compositions of the verified leaf futures - async fn desugaring trusted).",
-        "kani": STREAM_HEADER_KANI + [STREAM_KANI_QUICK[4], STREAM_KANI_QUICK[5], FRAME_READ_20] + ASYNC_LEAF_KANI,
-        "verus": [],
+        "kani": STREAM_HEADER_KANI + [STREAM_KANI_QUICK[4], STREAM_KANI_QUICK[5], FRAME_READ_20, STREAM_KANI_BUFFERED[0]] + ASYNC_LEAF_KANI,
+        "verus": [V("frame", pair=("proto", "p_frame_read_matches_reference_20")), V("frame_async"), V("stream_header", pair=("proto", "p_stream_header_read_matches_reference"))],
         "not_decided": ["in-order delivery (quinn)", "worker tasks / concurrency", "async composites beyond their leaf futures"],
     },
     "C03": {
@@ -265,7 +280,7 @@ PROPS = {
         "level": "proof",
         "claim": "Capsule path only: a DATA payload is a CLOSE_WEBTRANSPORT_SESSION capsule iff type 0x2843 with a complete length; the close carries exactly the big-endian 32-bit code (all 2^32) and the reason bytes unchanged, is accepted iff 4 <= len <= 1028 and UTF-8, and every malformed capsule is a protocol error (H3_DATAGRAM_ERROR), never an application close.",
         "note": "Not decided: ConnectStream::run (clean FIN => (0, ''), reset => protocol failure), Worker::run, From<quinn::ConnectionError> (async / need a quinn::Connection). UTF-8 validation trusted (core::str::from_utf8) beyond 4-byte reasons.",
-        "kani": CAPSULE_KANI,
+        "kani": CAPSULE_KANI + DRIVER_CLOSE + [ASYNC_LEAF_KANI[1]],
         "verus": [],
         "not_decided": ["ConnectStream::run", "ApplicationClose from quinn::ConnectionError"],
     },
@@ -284,14 +299,14 @@ PROPS = {
         "kani": [VARINT_KANI[2], VARINT_KANI[6], VARINT_KANI[7], VARINT_KANI[8], VARINT_KANI[9], FRAME_READ_20, FRAME_READ_4200, FRAME_KIND_KANI[1],
                  STREAM_HEADER_KANI[0], STREAM_KIND_KANI[1], DATAGRAM_KANI[4], CAPSULE_KANI[0], CAPSULE_KANI[1], CAPSULE_KANI[2], CAPSULE_KANI[3]]
                 + QPACK_INT_DEC + QPACK_MISC + [IDS_KANI[4], IDS_KANI[7], SETTING_ID_KANI[2]],
-        "verus": [V("frame", pair=("proto", "p_frame_read_matches_reference_20")), V("qpack_decode", pair=("proto", "p_qpack_decode_integer_n7")), V("settings", pair=("proto", "c_settingid_parse"))],
+        "verus": [V("frame", pair=("proto", "p_frame_read_matches_reference_20")), V("qpack_decode", pair=("proto", "p_qpack_decode_integer_n7")), V("settings", pair=("proto", "c_settingid_parse")), V("stream_header", pair=("proto", "p_stream_header_read_matches_reference"))],
         "not_decided": ["Decoder::decode loop / decode_string / Settings::with_frame under Kani (containers)"],
     },
     "C12": {
         "level": "proof",
         "claim": "Sans-IO typestate layer: on each of the four stream roles, from an arbitrary first-frame state, the accept/reject verdict and the error code for every frame kind equal the RFC 9114 7.2 / WebTransport-draft rule table; invalid session ids -> H3_ID_ERROR, oversize -> H3_EXCESSIVE_LOAD, unknown uni stream type -> H3_STREAM_CREATION_ERROR; the 15 error codes and the reserved/registered setting ids equal their registry values.",
         "note": "Quick tier: well-formed single frames (bounded). Thorough tier: every byte string <= 14 bytes. Not decided: the driver's reaction (RemoteSettingsStream::run, handle_uni_h3_stream, missing/duplicate SETTINGS, closed critical streams) - async over quinn.",
-        "kani": STREAM_KANI_QUICK[:5] + STREAM_KANI_THOROUGH + MISC_KANI[:1] + SETTING_ID_KANI[1:3],
+        "kani": STREAM_KANI_QUICK[:5] + STREAM_KANI_BUFFERED + STREAM_KANI_THOROUGH + MISC_KANI[:1] + SETTING_ID_KANI[1:3],
         "verus": [V("frame", pair=("proto", "p_frame_read_matches_reference_20")), V("settings", pair=("proto", "c_settingid_parse")), V("frame_async")],
         "not_decided": ["driver-level rules: missing/repeated SETTINGS, duplicated/closed critical streams, what is put on the wire"],
     },
@@ -309,16 +324,16 @@ PROPS = {
         "claim": "Exact inverses with exact sizes for varints (all v < 2^62, all four reader/writer impls, shortest form, untouched-on-error), stream headers (complete), frame headers (complete) with payloads up to the stated bound, datagrams, and QPACK prefix integers (all usize values, all widths); the QPACK static table is RFC 9204 Appendix A.",
         "note": "Frame/datagram payload length is bounded on Kani (8/70, 16/1200). Field sections and settings maps as wholes go through HashMap/iterators and are NOT claimed (Huffman codec, HashMap, Vec trusted).",
         "kani": VARINT_KANI + FRAME_WRITE_KANI + [FRAME_READ_20, STREAM_HEADER_KANI[1], DATAGRAM_KANI[0], DATAGRAM_KANI[1], DATAGRAM_KANI[2], DATAGRAM_KANI[3]]
-                + QPACK_INT_ENC + [QPACK_MISC[1], QPACK_LOOKUP],
-        "verus": [V("ids", pair=("proto", "c_varint_size"))],
+                + QPACK_INT_ENC + [QPACK_MISC[1], QPACK_LOOKUP, VEC_PUT_BYTES],
+        "verus": [V("ids", pair=("proto", "c_varint_size")), V("qpack_encode")],
         "not_decided": ["Headers::generate_frame <-> with_frame and Settings::generate_frame <-> with_frame as wholes"],
     },
     "C15": {
         "level": "proof",
         "claim": "One-shot and buffered decoders of frames and stream headers agree with one reference on EVERY byte string (so they agree with each other), need-more-data exactly on proper prefixes, buffered offset unchanged unless a value is returned; the four async leaf futures satisfy one-step inductive poll contracts from ANY state - every chunking and every Pending pattern - incl. ImmediateFin iff nothing was taken and UnexpectedFin iff something was.",
         "note": "Unchecked assumption: async fn desugaring composes the awaits sequentially and keeps no state beyond the leaf futures', so chunking-independence lifts to Frame::read_async / StreamHeader::read_async / read_frame_async (the whole state machines do not scale in CBMC). GetBuffer/PutBuffer steps shown for lengths <= 8.",
-        "kani": [FRAME_READ_20, FRAME_READ_4200, STREAM_HEADER_KANI[0], VARINT_KANI[9], FRAME_ASYNC_LIMIT] + ASYNC_LEAF_KANI + STREAM_KANI_THOROUGH[4:],
-        "verus": [V("frame", pair=("proto", "p_frame_read_matches_reference_20")), V("frame_async")],
+        "kani": [FRAME_READ_20, FRAME_READ_4200, STREAM_HEADER_KANI[0], VARINT_KANI[9], FRAME_ASYNC_LIMIT] + ASYNC_LEAF_KANI + STREAM_KANI_BUFFERED + STREAM_KANI_THOROUGH[4:],
+        "verus": [V("frame", pair=("proto", "p_frame_read_matches_reference_20")), V("frame_async"), V("stream_header", pair=("proto", "p_stream_header_read_matches_reference"))],
         "not_decided": ["async composites as whole state machines"],
     },
     "C16": {
@@ -327,7 +342,7 @@ PROPS = {
         "note": "Not under contract (HashMap iteration / sort closure / driver): exact content of the local SETTINGS frame, sorted_headers ordering (pseudo-headers first), Encoder::encode field-line choice beyond the integer/static-table primitives, 'exactly one control stream, SETTINGS first' (worker).",
         "kani": [FRAME_KIND_KANI[3], STREAM_KIND_KANI[3], SETTING_ID_KANI[3]] + MISC_KANI + [QPACK_MISC[1]] + QPACK_INT_ENC[:2]
                 + [STREAM_KANI_QUICK[5], STREAM_HEADER_KANI[1], FRAME_WRITE_KANI[0], DATAGRAM_KANI[2], CAPSULE_KANI[0]],
-        "verus": [],
+        "verus": [V("qpack_encode")],
         "not_decided": ["LocalSettingsStream content", "pseudo-header ordering", "Encoder::encode as a whole", "worker emission order"],
     },
     "C17": {
@@ -335,7 +350,7 @@ PROPS = {
         "claim": "Proof, for all 2^62 ids, of the identifier algebra: every function of ids.rs (classification, session-id admission, quarter-stream-id conversions, range, unsafe preconditions, debug_asserts) satisfies its contract against the RFC 9000 2.1 reference, on two back ends independently (Kani in place, Verus on extracted text); quinn stream ids convert unchanged.",
         "note": "Only the algebra is decided. Not decided: that the driver refuses foreign-session streams with BufferedStreamRejected and drops foreign datagrams (async over quinn).",
         "explanation": "Identifier algebra only: every function of ids.rs under contract on both back ends, for all 2^62 ids.",
-        "kani": IDS_KANI + [DRIVER_STREAMID, DATAGRAM_KANI[4]],
+        "kani": IDS_KANI + [DRIVER_STREAMID, DATAGRAM_KANI[4], MISC_KANI[0]],
         "verus": [V("ids", pair=("proto", "p_qstream_session_inverse_real"))],
         "not_decided": ["Driver::accept_uni/accept_bi/receive_datagram filtering of foreign sessions and the BufferedStreamRejected stop code (async over quinn)"],
     },
@@ -343,7 +358,7 @@ PROPS = {
         "level": "proof",
         "claim": "StatusCode: every numeric constructor yields Ok(c) iff 100 <= v <= 599 with c == v (complete), is_successful iff 200..=299, FromStr accepts exactly decimal strings of values in 100..=599.",
         "note": "FromStr bounded to strings <= 5 bytes (all u16 decimals; u16::from_str trusted beyond). Header-map admission predicates (SessionRequest/SessionResponse::try_from, reserved headers) are Verus units where listed. Not decided: SessionRequest::new (url crate), server refusal codes, connect()'s reaction (async driver).",
-        "kani": STATUS_KANI,
+        "kani": STATUS_KANI + [K("p_reserved_headers_list", "RESERVED_HEADERS is exactly the five WebTransport pseudo-headers", [P + "session.rs::SessionRequest::RESERVED_HEADERS"])],
         "verus": [V("session")],
         "not_decided": ["SessionRequest::new / url crate", "driver reaction to refused requests"],
     },
